@@ -130,7 +130,17 @@ pub fn run(ctx: &Ctx) -> Report {
         if r.chance(1, 3) {
             o.cogen = Tri::Always;
         }
+        let hourly = idx % 6000 == 11;
+        if hourly {
+            // a few hourly years (plain, leap, half-hourly) with load matching: the equations are per step whatever the step is
+            o.steps = Some(*r.pick(&[8760usize, 8784, 17520]));
+            o.pv = Tri::Always;
+        }
         let mut case = gen_case(r, &o, 45);
+        if hourly {
+            case.lm = true;
+            t.count("feature.hourly_series_with_load_matching");
+        }
         if r.chance(1, 40) {
             crate::gen::without_epb_use(&mut case.spec, r);
         }
@@ -138,6 +148,7 @@ pub fn run(ctx: &Ctx) -> Report {
     });
     let quotas = vec![
         ("feature.cogeneration".to_string(), tally.get("feature.cogeneration"), 200),
+        ("feature.hourly_series_with_load_matching".to_string(), tally.get("feature.hourly_series_with_load_matching"), 1),
         ("feature.cogenerated_electricity_exported".to_string(), tally.get("feature.cogenerated_electricity_exported"), 50),
         ("feature.export_to_nepb".to_string(), tally.get("feature.export_to_nepb"), 100),
         ("feature.user_factor_file".to_string(), tally.get("feature.user_factor_file"), 200),
